@@ -172,21 +172,52 @@ def run(ck, F):
         else:
             ck.violation("R3", "lookup-before-construct", site, f"{short}: a Namespace is built without first looking its URI up in the registry: one URI can get two prefixes", fn=fn)
     # ---- R4
-    b = F.lib.body("model::doc::RustDocument::extend")
+    MERGE = A.merge_fn(F)
+    b = F.lib.body(MERGE) if MERGE else None
     if b is None:
-        ck.undecided("R4", "extend", "-", "RustDocument::extend not found")
+        ck.undecided("R4", "extend", "-", "the merge function `fn(&mut RustDocument, RustDocument)` could not be attributed")
         return
     nb = Hh.norm_body(b)
     text = " ".join(Hh.describe(x) for x in Hh.exprs(nb["value"]) if x.get("k") in ("MethodCall", "Call"))
     by_uri = False
     # the merge itself and the local functions it delegates to
-    for hb in [b] + [F.lib.body(c) for c in A.local_callees(F, "model::doc::RustDocument::extend")]:
+    for hb in [b] + [F.lib.body(c) for c in A.local_callees(F, MERGE)]:
         if hb is None:
             continue
         hnb = Hh.norm_body(hb)
         for x in Hh.exprs(hnb["value"]):
             if x.get("k") == "Binary" and x["op"] == "Eq" and ".namespace" in Hh.describe(x):
                 by_uri = True
+    # whatever the merge keys on, an entry that the receiver already holds is not appended again: each incoming namespace is pushed
+    # only on the arm where a membership test over the whole receiving registry failed (an `extend` + `dedup` only removes neighbours)
+    MB = I.inlined_body(F.lib, MERGE)
+    regs = ("namespaces", "target_namespaces")
+
+    def on_registry(op, fld):
+        os_ = M.trace(MB, op, M.IDENTITY_CALLS + ("[T]>::iter", "Vec::<T, A>::iter", "Vec::<T, A>::as_slice"))
+        return bool(os_) and all(o.kind == "arg" and o.local == 1 and o.fields()[:1] == [fld] for o in os_)
+    for fld in regs:
+        appends = [(bb, t) for bb, t in MB.calls() if (M.Body.callee_decl(t) or "").endswith(("Vec::<T, A>::push", "Vec::<T, A>::extend", "iter::Extend::extend",
+                   "Vec::<T, A>::append", "Vec::<T, A>::extend_from_slice", "Vec::<T, A>::insert")) and t.get("args") and on_registry(t["args"][0], fld)]
+        tests = [(bb, t) for bb, t in MB.calls() if (M.Body.callee_decl(t) or "").endswith(("::contains", "Iterator::any", "Iterator::all", "Iterator::position", "Iterator::find"))
+                 and t.get("args") and on_registry(t["args"][0], fld)]
+        if not appends:
+            ck.undecided("R4", f"merge-no-duplicates:{fld}", b["span"], f"no append to the receiver's `{fld}` found in the merge")
+            continue
+        bad = []
+        for abb, at in appends:
+            d_ = M.Body.callee_decl(at) or ""
+            guarded = d_.endswith("push") and any((lambda arm: arm is not None and MB.dominates(arm, abb))(_arm_when_false(MB, tbb, tt)) for tbb, tt in tests
+                                                  if (M.Body.callee_decl(tt) or "").endswith(("::contains", "Iterator::any")))
+            if not guarded:
+                bad.append((abb, d_.rsplit("::", 1)[-1]))
+        if bad:
+            ck.violation("R4", f"merge-no-duplicates:{fld}", MB.term(bad[0][0]).get("sp") or b["span"],
+                         f"the merge appends incoming `{fld}` entries with `{bad[0][1]}` without having tested each against the whole receiving registry: "
+                         f"a namespace both documents hold is listed twice (its module is then written twice)")
+        else:
+            ck.ok("R4", f"merge-no-duplicates:{fld}", MB.term(appends[0][0]).get("sp") or b["span"],
+                  f"incoming `{fld}` entries are pushed only after a failed membership test over the receiving registry")
     if by_uri:
         ck.ok("R4", "merge-by-uri", b["span"], "registries are merged by URI")
     else:
